@@ -418,6 +418,14 @@ class Dimension:
     def __getnewargs_ex__(self) -> Tuple[Tuple[Tuple[int, ...]], Dict[str, Any]]:
         return (self.exponents,), {}
 
+    def __setstate__(self, state: Any) -> None:
+        # unpickling re-enters __new__, which returns the interned instance when there
+        # already is one; that instance keeps its own (possibly newer) names
+        if getattr(self, "_initialized", False):
+            return
+        for slot, value in (state[1] if isinstance(state, tuple) else state).items():
+            setattr(self, slot, value)
+
     # JSON support
 
     def __json__(self) -> Dict[str, Any]:
@@ -721,6 +729,14 @@ class Prefix:
 
     def __getnewargs_ex__(self) -> Tuple[Tuple[int, Numeric], Dict[str, Any]]:
         return (self.base, self.exponent), {}
+
+    def __setstate__(self, state: Any) -> None:
+        # unpickling re-enters __new__, which returns the interned instance when there
+        # already is one; that instance keeps its own (possibly newer) names
+        if getattr(self, "_initialized", False):
+            return
+        for slot, value in (state[1] if isinstance(state, tuple) else state).items():
+            setattr(self, slot, value)
 
     # JSON support
 
@@ -1081,6 +1097,14 @@ class Unit:
         args = (self.prefix, factors, self.dimension)
         kwargs = {"name": self.name, "symbol": self.symbol}
         return args, kwargs
+
+    def __setstate__(self, state: Any) -> None:
+        # unpickling re-enters __new__, which returns the interned instance when there
+        # already is one; that instance keeps its own (possibly newer) names
+        if getattr(self, "_initialized", False):
+            return
+        for slot, value in (state[1] if isinstance(state, tuple) else state).items():
+            setattr(self, slot, value)
 
     # JSON support
 
